@@ -445,15 +445,59 @@ func checkC13(h *History, vs []*opView) {
 		// overload arm
 		lim := int(ops[0].srv.MaxConcurrent)
 		if lim > 0 && h.P.Arm == "overload" && nq > lim {
-			refused := 0
-			for _, f := range frames {
-				if m, err := refdns.Parse(f); err == nil && m.Rcode() == 5 {
-					refused++
+			// the burst: every operation sent at the time of the first one; what
+			// the connection asks later (second phase) is counted apart
+			first := time.Duration(1 << 62)
+			for _, v := range ops {
+				if v.q != nil && time.Duration(v.o.Op.AtUs)*time.Microsecond < first {
+					first = time.Duration(v.o.Op.AtUs) * time.Microsecond
+				}
+			}
+			nburst, refused := 0, 0
+			var late []*opView
+			for _, v := range ops {
+				if v.q == nil {
+					continue
+				}
+				if time.Duration(v.o.Op.AtUs)*time.Microsecond > first+time.Second {
+					late = append(late, v)
+					continue
+				}
+				nburst++
+				for _, r := range v.o.Resps {
+					if m, err := refdns.Parse(r.B); err == nil && m.Rcode() == 5 {
+						refused++
+					}
 				}
 			}
 			h.S.Probe("c13_overload")
-			if refused != nq-lim {
-				h.S.Fail("C13", "overload-refused", "conn %d (%s): %d queries in one burst with limit %d: %d REFUSED, want %d", ci, cr.Proto, nq, lim, refused, nq-lim)
+			if nburst > lim && refused != nburst-lim {
+				h.S.Fail("C13", "overload-refused", "conn %d (%s): %d queries in one burst with limit %d: %d REFUSED, want %d", ci, cr.Proto, nburst, lim, refused, nburst-lim)
+			}
+			// second phase: a query sent while fewer queries than the limit are
+			// in flight on the connection (every earlier one answered at least
+			// 100 ms before, at most limit-1 others sent with it) is not refused
+			for _, v := range late {
+				if !v.o.Sent || len(v.o.Resps) == 0 {
+					continue
+				}
+				inflight := 0
+				for _, w := range ops {
+					if w == v || w.q == nil || !w.o.Sent || w.o.SentAt > v.o.SentAt+100*time.Millisecond {
+						continue
+					}
+					if len(w.o.Resps) == 0 || w.o.Resps[0].At+100*time.Millisecond > v.o.SentAt {
+						inflight++
+					}
+				}
+				if inflight >= lim {
+					continue
+				}
+				h.S.Probe("c13_within_limit_checked")
+				if m, err := refdns.Parse(v.o.Resps[0].B); err == nil && m.Rcode() == 5 {
+					h.S.Fail("C13", "refused-within-limit", "conn %d (%s): the query with id %d, sent at %v with at most %d other queries in flight on the connection (limit %d), was answered REFUSED", ci, cr.Proto, v.q.ID, v.o.SentAt, inflight, lim)
+					break
+				}
 			}
 		}
 	}
